@@ -41,6 +41,29 @@ func init() {
 				add(fmt.Sprintf("Action(%#x).String", uint32(a)), a.String())
 			}
 		}
+		// the bytes handed out by MarshalText belong to the caller: scribbling over them must not influence later conversions
+		for _, a := range allNamed {
+			mt, _ := a.MarshalText()
+			want := a.String()
+			for i := range mt {
+				mt[i] = '#'
+			}
+			mt2, _ := a.MarshalText()
+			if string(mt2) != want || a.String() != want {
+				add(fmt.Sprintf("alias/Action(%#x).MarshalText", uint32(a)), "ALIASED: after the caller overwrote a returned text, the next conversion gives "+string(mt2))
+			}
+		}
+		for _, f := range []seccomp.FilterFlag{1, 2, 3} {
+			mt, _ := f.MarshalText()
+			want := f.String()
+			for i := range mt {
+				mt[i] = '#'
+			}
+			mt2, _ := f.MarshalText()
+			if string(mt2) != want {
+				add(fmt.Sprintf("alias/FilterFlag(%d).MarshalText", uint32(f)), "ALIASED: after the caller overwrote a returned text, the next conversion gives "+string(mt2))
+			}
+		}
 		// compiled programs of fixed policies
 		for name, sc := range map[string]func() string{"x86_64": func() string { return c13Compile(c13Policy(refsemArch("x86_64"), 1)) }, "arm": func() string { return c13Compile(c13Policy(refsemArch("arm"), 0)) }} {
 			for i := 0; i < 8; i++ {
@@ -355,6 +378,12 @@ func checkC13(tier, replay string) int {
 	})
 	distinctTexts := 0
 	for k, set := range seen {
+		if strings.HasPrefix(k, "alias/") {
+			for v := range set {
+				ctx.Violation("C13:text-aliased:"+strings.SplitN(k[6:], "(", 2)[0], k[6:]+": "+v, map[string]any{"what": k})
+			}
+			continue
+		}
 		distinctTexts += len(set)
 		if len(set) > 1 {
 			var vs []string
